@@ -185,16 +185,61 @@ def neutralise_names(model):
     return m
 
 
+def targeted_extends_model(rng):
+    """Base type whose only children are wildcard keys with defaults keyed
+    in mixed case; derived types (chain <=2) overriding the key type in
+    every direction; all declared names are fixed points."""
+    kts = family.KEYTYPES
+
+    def wild(kind, attr):
+        ks = rng.sample(["Wild", "wild", "Zed", "w2", "ALPHA"], 3)
+        dfl = [[k, rng.choice(["a", "b", "c"])] for k in ks]
+        return {"kind": kind, "name": "+", "attribute": attr,
+                "datatype": "string", "required": False, "handler": None,
+                "default": None, "defaults": dfl}
+    k1, k2, k3 = (rng.choice(kts) for _ in range(3))
+    types = [
+        {"kind": "section", "name": "tb", "keytype": k1, "datatype": None,
+         "extends": None, "implements": None,
+         "children": [wild(rng.choice(["key", "multikey"]), "wmap")]},
+        {"kind": "section", "name": "td", "keytype": k2, "datatype": None,
+         "extends": "tb", "implements": None, "children": []},
+        {"kind": "section", "name": "te",
+         "keytype": k3 if rng.random() < 0.6 else None, "datatype": None,
+         "extends": "td", "implements": None, "children": []},
+    ]
+    # a single wildcard key must not have colliding defaults under any of
+    # the key types involved
+    w = types[0]["children"][0]
+    if w["kind"] == "key":
+        seen = set()
+        keep = []
+        for k, v in w["defaults"]:
+            if k.lower() in seen:
+                continue
+            seen.add(k.lower())
+            keep.append([k, v])
+        w["defaults"] = keep
+    children = [{"kind": "multisection", "name": "*", "type": t,
+                 "required": False, "handler": None,
+                 "attribute": "s_" + t} for t in ("tb", "td", "te")]
+    return {"keytype": "basic-key", "datatype": None, "handler": None,
+            "children": children, "types": types}
+
+
 def run_extends(ctx, i):
     rng = ctx.rng("extends", i)
     override = rng.random() < 0.25
-    for _ in range(20):
-        model = family.random_model(rng, handlers=False,
-                                    override_keytype=override)
-        if any(t.get("extends") for t in model["types"]):
-            break
+    if i % 4 == 3:
+        model = targeted_extends_model(rng)
     else:
-        return
+        for _ in range(20):
+            model = family.random_model(rng, handlers=False,
+                                        override_keytype=override)
+            if any(t.get("extends") for t in model["types"]):
+                break
+        else:
+            return
     depth = {}
     for t in model["types"]:
         if t.get("extends"):
